@@ -120,6 +120,7 @@ CONF = {
   "parts": [{"name": "frr", "pkg": "internal/bgp/frr", "test": "TestVerif_C19", "shards": {"quick": 16, "thorough": 16}, "budget_s": {"quick": 100, "thorough": 1500}},
             {"name": "frrk8s", "pkg": "internal/k8s/controllers", "test": "TestVerif_C19k", "shards": {"quick": 16, "thorough": 16}, "budget_s": {"quick": 60, "thorough": 900}},
             {"name": "manager", "pkg": "internal/bgp/frr", "test": "TestVerif_C19mgr", "shards": {"quick": 16, "thorough": 16}, "budget_s": {"quick": 60, "thorough": 900}},
+            {"name": "reloader", "pkg": "internal/bgp/frr", "test": "TestVerif_C19reloader", "shards": 1},
             {"name": "closure", "pkg": "internal/bgp/frr", "test": "TestVerif_C19closure", "shards": {"quick": 4, "thorough": 16}, "budget_s": {"quick": 60, "thorough": 600}},
             {"name": "submitters", "pkg": "internal/bgp/frr", "test": "TestVerif_C19conc", "shards": {"quick": 8, "thorough": 16}, "budget_s": {"quick": 60, "thorough": 600}, "gomaxprocs": 1,
              "rewrites": {"sync": ["internal/bgp/frr/frr.go"], "chan": ["internal/bgp/frr/frr.go"], "map": ["internal/bgp/frr/frr.go"]}}],
